@@ -31,6 +31,7 @@ fn tyname(t: &Ty) -> String {
         Ty::U256 => "u256".into(),
         Ty::U512 => "core::integer::u512".into(),
         Ty::Bool => "bool".into(),
+        Ty::B(lo, hi) => format!("BoundedInt<{lo}, {hi}>"),
         Ty::NonZero(t) => format!("NonZero<{}>", tyname(t)),
     }
 }
@@ -42,6 +43,7 @@ pub fn coq_ty(t: &Ty) -> String {
         Ty::U256 => "U256T".into(),
         Ty::U512 => "U512T".into(),
         Ty::Bool => "BoolT".into(),
+        Ty::B(..) => "Felt".into(),
         Ty::NonZero(t) => coq_ty(t),
     }
 }
@@ -168,6 +170,30 @@ pub fn op_table() -> Vec<OpDef> {
             let _ = ta;
         }
     }
+    // multi-limb corelib operations (u256 x u256 -> u512, modular multiplication, 512/256 division,
+    // modular inverse, squares): carries between 128-bit limbs
+    let u256 = Ty::U256;
+    let nz256 = Ty::NonZero(Box::new(Ty::U256));
+    let trw = "use core::num::traits::{WideMul, WideSquare};\n";
+    add(&u256, "OWideMul", "wide_mul", vec![u256.clone(), u256.clone()], "core::integer::u512", "a.wide_mul(b)", trw);
+    for ty in arith_types.iter().filter(|t| !matches!(t, Ty::I(128))) {
+        let wt = match ty {
+            Ty::U256 => "core::integer::u512".to_string(),
+            Ty::U(128) => "u256".to_string(),
+            Ty::U(w) => format!("u{}", 2 * w),
+            Ty::I(w) => format!("i{}", 2 * w),
+            _ => continue,
+        };
+        add(ty, "OWideSquare", "wide_square", vec![ty.clone()], &wt, "a.wide_square()", trw);
+    }
+    add(&u256, "OMulModN", "mul_mod_n", vec![u256.clone(), u256.clone(), nz256.clone()], "u256",
+        "core::math::u256_mul_mod_n(a, b, c)", "");
+    add(&u256, "OInvMod", "inv_mod", vec![u256.clone(), nz256.clone()], "Option<NonZero<u256>>",
+        "core::math::u256_inv_mod(a, b)", "");
+    add(&u256, "ODivModN", "div_mod_n", vec![u256.clone(), u256.clone(), nz256.clone()], "Option<u256>",
+        "core::math::u256_div_mod_n(a, b, c)", "");
+    add(&Ty::U512, "OU512DivRem", "div_rem_by_u256", vec![Ty::U512, nz256.clone()],
+        "(core::integer::u512, u256)", "core::integer::u512_safe_div_rem_by_u256(a, b)", "");
     // felt252
     let f = Ty::Felt;
     let two = vec![f.clone(), f.clone()];
